@@ -199,6 +199,13 @@ def pipeline_diff(req):
                 e2 = dict(envs[0])
                 e2[f] = rnd.choice(SPECIAL_VALUES)
                 envs.append(e2)
+        if spl and not any(f in ids for f in spl):
+            # values that are equal but print differently (and the empty key), consecutively on ONE evaluator
+            for v in (1, 1.0, True, "1", 0, 0.0, False, "", "True"):
+                e2 = dict(envs[0])
+                for f in spl:
+                    e2[f] = v
+                envs.append(e2)
         for env in envs:
             stats["calls"] += 1
             exp_out = dsl_ref.evaluate(exp, env)
